@@ -46,6 +46,9 @@ Model/Digest.vos Model/Digest.vok Model/Digest.required_vos: Model/Digest.v Base
 Model/Filter.vo Model/Filter.glob Model/Filter.v.beautified Model/Filter.required_vo: Model/Filter.v Base/Bytes.vo Base/Dec.vo Gen/Crc16.vo
 Model/Filter.vio: Model/Filter.v Base/Bytes.vio Base/Dec.vio Gen/Crc16.vio
 Model/Filter.vos Model/Filter.vok Model/Filter.required_vos: Model/Filter.v Base/Bytes.vos Base/Dec.vos Gen/Crc16.vos
+Model/Incr.vo Model/Incr.glob Model/Incr.v.beautified Model/Incr.required_vo: Model/Incr.v Base/Bytes.vo Base/Dec.vo Model/RespCodec.vo Model/Filter.vo Model/CmdFilter.vo Model/Checkpoint.vo
+Model/Incr.vio: Model/Incr.v Base/Bytes.vio Base/Dec.vio Model/RespCodec.vio Model/Filter.vio Model/CmdFilter.vio Model/Checkpoint.vio
+Model/Incr.vos Model/Incr.vok Model/Incr.required_vos: Model/Incr.v Base/Bytes.vos Base/Dec.vos Model/RespCodec.vos Model/Filter.vos Model/CmdFilter.vos Model/Checkpoint.vos
 Model/Lzf.vo Model/Lzf.glob Model/Lzf.v.beautified Model/Lzf.required_vo: Model/Lzf.v Base/Bytes.vo
 Model/Lzf.vio: Model/Lzf.v Base/Bytes.vio
 Model/Lzf.vos Model/Lzf.vok Model/Lzf.required_vos: Model/Lzf.v Base/Bytes.vos
@@ -85,6 +88,9 @@ Proofs/CupcakeProofs.vos Proofs/CupcakeProofs.vok Proofs/CupcakeProofs.required_
 Proofs/DigestProofs.vo Proofs/DigestProofs.glob Proofs/DigestProofs.v.beautified Proofs/DigestProofs.required_vo: Proofs/DigestProofs.v Base/Bytes.vo Base/Table.vo Base/Endian.vo Spec/Crc64.vo Gen/Crc64.vo Model/Digest.vo Proofs/Crc64Proofs.vo
 Proofs/DigestProofs.vio: Proofs/DigestProofs.v Base/Bytes.vio Base/Table.vio Base/Endian.vio Spec/Crc64.vio Gen/Crc64.vio Model/Digest.vio Proofs/Crc64Proofs.vio
 Proofs/DigestProofs.vos Proofs/DigestProofs.vok Proofs/DigestProofs.required_vos: Proofs/DigestProofs.v Base/Bytes.vos Base/Table.vos Base/Endian.vos Spec/Crc64.vos Gen/Crc64.vos Model/Digest.vos Proofs/Crc64Proofs.vos
+Proofs/IncrProofs.vo Proofs/IncrProofs.glob Proofs/IncrProofs.v.beautified Proofs/IncrProofs.required_vo: Proofs/IncrProofs.v Base/Bytes.vo Base/Dec.vo Model/RespCodec.vo Model/Filter.vo Model/CmdFilter.vo Model/Checkpoint.vo Model/Incr.vo Proofs/RespProofs.vo
+Proofs/IncrProofs.vio: Proofs/IncrProofs.v Base/Bytes.vio Base/Dec.vio Model/RespCodec.vio Model/Filter.vio Model/CmdFilter.vio Model/Checkpoint.vio Model/Incr.vio Proofs/RespProofs.vio
+Proofs/IncrProofs.vos Proofs/IncrProofs.vok Proofs/IncrProofs.required_vos: Proofs/IncrProofs.v Base/Bytes.vos Base/Dec.vos Model/RespCodec.vos Model/Filter.vos Model/CmdFilter.vos Model/Checkpoint.vos Model/Incr.vos Proofs/RespProofs.vos
 Proofs/PipeProofs.vo Proofs/PipeProofs.glob Proofs/PipeProofs.v.beautified Proofs/PipeProofs.required_vo: Proofs/PipeProofs.v Base/Bytes.vo Base/Table.vo Model/Backlog.vo Model/Pipe.vo Proofs/BacklogProofs.vo
 Proofs/PipeProofs.vio: Proofs/PipeProofs.v Base/Bytes.vio Base/Table.vio Model/Backlog.vio Model/Pipe.vio Proofs/BacklogProofs.vio
 Proofs/PipeProofs.vos Proofs/PipeProofs.vok Proofs/PipeProofs.required_vos: Proofs/PipeProofs.v Base/Bytes.vos Base/Table.vos Model/Backlog.vos Model/Pipe.vos Proofs/BacklogProofs.vos
@@ -109,6 +115,12 @@ Proofs/SupervisorProofs.vos Proofs/SupervisorProofs.vok Proofs/SupervisorProofs.
 Props/C01.vo Props/C01.glob Props/C01.v.beautified Props/C01.required_vo: Props/C01.v Base/Bytes.vo Base/Endian.vo Spec/Crc64.vo Gen/Crc64.vo Gen/Rdb.vo Model/Digest.vo Model/Rdb.vo Spec/RdbFormat.vo Spec/RdbRecords.vo Proofs/RdbProofs.vo Proofs/DigestProofs.vo
 Props/C01.vio: Props/C01.v Base/Bytes.vio Base/Endian.vio Spec/Crc64.vio Gen/Crc64.vio Gen/Rdb.vio Model/Digest.vio Model/Rdb.vio Spec/RdbFormat.vio Spec/RdbRecords.vio Proofs/RdbProofs.vio Proofs/DigestProofs.vio
 Props/C01.vos Props/C01.vok Props/C01.required_vos: Props/C01.v Base/Bytes.vos Base/Endian.vos Spec/Crc64.vos Gen/Crc64.vos Gen/Rdb.vos Model/Digest.vos Model/Rdb.vos Spec/RdbFormat.vos Spec/RdbRecords.vos Proofs/RdbProofs.vos Proofs/DigestProofs.vos
+Props/C03.vo Props/C03.glob Props/C03.v.beautified Props/C03.required_vo: Props/C03.v Base/Bytes.vo Base/Dec.vo Model/RespCodec.vo Model/Filter.vo Model/Incr.vo Proofs/IncrProofs.vo
+Props/C03.vio: Props/C03.v Base/Bytes.vio Base/Dec.vio Model/RespCodec.vio Model/Filter.vio Model/Incr.vio Proofs/IncrProofs.vio
+Props/C03.vos Props/C03.vok Props/C03.required_vos: Props/C03.v Base/Bytes.vos Base/Dec.vos Model/RespCodec.vos Model/Filter.vos Model/Incr.vos Proofs/IncrProofs.vos
+Props/C04.vo Props/C04.glob Props/C04.v.beautified Props/C04.required_vo: Props/C04.v Base/Bytes.vo Base/Dec.vo Model/RespCodec.vo Model/Filter.vo Model/Checkpoint.vo Model/Incr.vo Proofs/IncrProofs.vo Proofs/CheckpointProofs.vo
+Props/C04.vio: Props/C04.v Base/Bytes.vio Base/Dec.vio Model/RespCodec.vio Model/Filter.vio Model/Checkpoint.vio Model/Incr.vio Proofs/IncrProofs.vio Proofs/CheckpointProofs.vio
+Props/C04.vos Props/C04.vok Props/C04.required_vos: Props/C04.v Base/Bytes.vos Base/Dec.vos Model/RespCodec.vos Model/Filter.vos Model/Checkpoint.vos Model/Incr.vos Proofs/IncrProofs.vos Proofs/CheckpointProofs.vos
 Props/C09.vo Props/C09.glob Props/C09.v.beautified Props/C09.required_vo: Props/C09.v Base/Bytes.vo Model/Backlog.vo Model/Pipe.vo Proofs/PipeProofs.vo
 Props/C09.vio: Props/C09.v Base/Bytes.vio Model/Backlog.vio Model/Pipe.vio Proofs/PipeProofs.vio
 Props/C09.vos Props/C09.vok Props/C09.required_vos: Props/C09.v Base/Bytes.vos Model/Backlog.vos Model/Pipe.vos Proofs/PipeProofs.vos
